@@ -43,8 +43,10 @@ def specs_for(ctx):
                       "sim": {"theta": rng.uniform(0, 2 * math.pi), "scale": 10 ** rng.uniform(-1, 1), "offset_sizes": rng.uniform(0, 2),
                               "extent": ext, "reflect": rng.random() < 0.3},
                       "build": {"limit": lim, "fit": rng.choice(["dlite", "taubinSVD"]), "no_metadata": rng.random() < 0.6,
-                                "prebuild": ({"limit": rng.choice(["pi", 2.0, 2.6, "inf"]), "fit": "dlite", "ignore_four": None}
-                                             if rng.random() < 0.3 else None)},
+                                # an earlier build with ANOTHER limit on the same session (half of the default-limit cases, a
+                                # quarter of the others): nothing of it may survive into the judged build
+                                "prebuild": ({"limit": rng.choice(["pi", 2.0, 2.0, 2.6, 2.6, "inf"]), "fit": "dlite", "ignore_four": None}
+                                             if rng.random() < (0.5 if lim == "pi" else 0.25) else None)},
                       "solve": solve})
     return specs
 
